@@ -325,9 +325,9 @@ def d5(cx: Cx, ob: Ob) -> None:
                     for e in it[1]:
                         inner = e[1] if op(e) == "star" else e
                         if op(inner) == "attr" and inner[1] == rec:
-                            order.append((pos, inner[2]))
+                            order.append(((0, pos), inner[2]))
                         else:
-                            order.append((pos, f"?{show(inner)[:20]}"))
+                            order.append(((0, pos), f"?{show(inner)[:20]}"))
                         pos += 1
                     continue
             if op(t) == "item" and t[1] == ups:
@@ -337,9 +337,21 @@ def d5(cx: Cx, ob: Ob) -> None:
             if key is None:
                 ob.undecide(f"{hname} returns `{show(t)[:50]}`")
                 continue
-            fs = prov.fields(key)
-            for r_, f in fs:
-                order.append((ctx.path.out[2], f if r_ == rec else f"?{f}"))
+            src = ctx.loops[-1].b if ctx.loops and ctx.loops[-1].a == key else None
+            if op(src) == "new" and len(src) > 4:
+                src = src[4]
+            if op(src) in ("list", "tuple"):
+                # one loop over a display [canonical, *synonyms]: the position in the display is the lookup order
+                for pos, e in enumerate(src[1]):
+                    inner = e[1] if op(e) == "star" else e
+                    if op(inner) == "attr" and inner[1] == rec:
+                        order.append(((ctx.path.out[2], pos), inner[2]))
+                    else:
+                        order.append(((ctx.path.out[2], pos), f"?{show(inner)[:20]}"))
+            else:
+                fs = prov.fields(key)
+                for r_, f in fs:
+                    order.append(((ctx.path.out[2], 0), f if r_ == rec else f"?{f}"))
             for g in ctx.guards:
                 if g.kind != "guard":
                     continue
